@@ -41,29 +41,54 @@ def coq_check(prop):
 # implementation side
 
 
-def _build(tree, sep, binary):
-    """returns (root, {id(dict): node object})"""
+_SUB = {}
+
+
+def _node_class(binary, sub):
+    if binary:
+        from bigtree.node.binarynode import BinaryNode as Base
+    else:
+        from bigtree.node.node import Node as Base
+    if not sub:
+        return Base
+    key = ("bin" if binary else "node")
+    if key not in _SUB:
+        _SUB[key] = type("My" + Base.__name__, (Base,), {"__module__": __name__})
+    return _SUB[key]
+
+
+def _val(v):
+    """attribute value of the case -> Python object (lists are fresh mutable objects)"""
+    return list(v) if isinstance(v, list) else v
+
+
+def _build(case):
+    """returns (root, {id(dict): node object}); node d gets its own `_sep` d["s"] (the root: the tree's
+    separator), all other attributes of d["a"] (keys starting with '_' included)"""
+    tree, sep, binary = case["tree"], case["sep"], bool(case.get("binary"))
+    cls = _node_class(binary, case.get("cls") == "sub")
     objs = {}
     if binary:
-        from bigtree.node.binarynode import BinaryNode
-
         def recb(d):
-            n = BinaryNode(d["n"], **d["a"])
+            n = cls(d["n"], **{k: _val(v) for k, v in d["a"].items()})
             objs[id(d)] = n
             n.children = [None if k is None else recb(k) for k in d["k"]]
+            if d.get("s") is not None:
+                n._sep = d["s"]
             return n
 
         root = recb(tree)
         root.sep = sep
         return root, objs
 
-    from bigtree.node.node import Node
-
     def rec(d, parent):
-        if parent is None:
-            n = Node(d["n"], sep=sep, **d["a"])
-        else:
-            n = Node(d["n"], parent=parent, **d["a"])
+        kw = {k: _val(v) for k, v in d["a"].items()}
+        own = sep if parent is None else d.get("s")
+        if own is not None:
+            kw["sep"] = own
+        if parent is not None:
+            kw["parent"] = parent
+        n = cls(d["n"], **kw)
         objs[id(d)] = n
         for k in d["k"]:
             rec(k, n)
@@ -72,13 +97,38 @@ def _build(tree, sep, binary):
     return rec(tree, None), objs
 
 
+_LINK = re.compile(r"^_\w+__(parent|children)$")
+
+
+def _canon(v):
+    if isinstance(v, list):
+        return "list:" + json.dumps(v)
+    return v
+
+
 def _attrs(node, binary):
+    """every instance attribute except the name, the link fields (name-mangled __parent/__children) and
+    BinaryNode.val (derived from the name); `_sep` and user attributes starting with '_' are included"""
     out = []
     for k, v in vars(node).items():
-        if k.startswith("_") or k == "name" or (binary and k == "val"):
+        if k == "name" or _LINK.match(k) or (binary and k == "val"):
             continue
-        out.append([k, v])
+        out.append([k, _canon(v)])
     out.sort(key=lambda kv: kv[0])
+    return out
+
+
+def _nodes(node):
+    out = []
+
+    def rec(n):
+        if n is None:
+            return
+        out.append(n)
+        for c in n.children:
+            rec(c)
+
+    rec(node)
     return out
 
 
@@ -122,6 +172,17 @@ def _printed(start, path, md):
     return {"lines": out}
 
 
+def _hprinted_names(start, path, md):
+    """sorted node names shown by hyield_tree (only used when all names are alphanumeric)"""
+    from bigtree.tree.export import hyield_tree
+
+    try:
+        lines = hyield_tree(start, node_name_or_path=path, max_depth=md, style="ansi")
+    except Exception as e:  # noqa
+        return {"err": exn_code(e)}
+    return {"names": sorted(re.findall(r"[A-Za-z0-9]+", "\n".join(lines)))}
+
+
 def _start_dict(case):
     d = case["tree"]
     for i in case.get("start", []):
@@ -129,30 +190,93 @@ def _start_dict(case):
     return d
 
 
-def run_impl(prop, case):
+def _call(case, start):
+    """performs the call; arguments equal to their default are left out when call["omit"]"""
     from bigtree.tree.helper import get_subtree, prune_tree
 
-    binary = bool(case.get("binary"))
-    root, objs = _build(case["tree"], case["sep"], binary)
-    start = objs[id(_start_dict(case))]
-    before = _observe(root, binary)
     call = case["call"]
-    obs = {}
+    omit = bool(call.get("omit"))
+    if call["fn"] == "prune":
+        paths = copy.deepcopy(call["paths"])
+        if call.get("ptype") == "tuple" and isinstance(paths, list):
+            paths = tuple(paths)
+        kw = {}
+        if not (omit and paths == ""):
+            kw["prune_path"] = paths
+        if not (omit and not call["exact"]):
+            kw["exact"] = call["exact"]
+        if not (omit and call["psep"] == "/"):
+            kw["sep"] = call["psep"]
+        if not (omit and call["max_depth"] == 0):
+            kw["max_depth"] = call["max_depth"]
+        res = prune_tree(start, **kw)
+        return res, paths
+    if omit and call["max_depth"] == 0:
+        if call["path"] == "":
+            return get_subtree(start), None
+        return get_subtree(start, call["path"]), None
+    return get_subtree(start, call["path"], call["max_depth"]), None
+
+
+def _snapshot(root, binary):
+    return [_observe(root, binary), root.sep]
+
+
+def _try(case, start, binary):
     try:
-        if call["fn"] == "prune":
-            res = prune_tree(start, copy.deepcopy(call["paths"]), exact=call["exact"], sep=call["psep"],
-                             max_depth=call["max_depth"])
-        else:
-            res = get_subtree(start, call["path"], call["max_depth"])
-        if res is None or not hasattr(res, "children"):
-            obs = {"err": 13}
-        else:
-            obs = {"tree": _observe(res, binary), "top": int(res.depth)}
+        res, passed = _call(case, start)
     except Exception as e:  # noqa
-        obs = {"err": exn_code(e)}
-    obs["source_same"] = _observe(root, binary) == before
-    if call["fn"] == "subtree" and "\n" not in "".join(x[1] for x in before):
+        return None, None, {"err": exn_code(e)}
+    if res is None or not hasattr(res, "children"):
+        return None, passed, {"err": 13}
+    return res, passed, {"tree": _observe(res, binary), "top": int(res.depth)}
+
+
+def run_impl(prop, case):
+    binary = bool(case.get("binary"))
+    root, objs = _build(case)
+    start = objs[id(_start_dict(case))]
+    in_nodes = _nodes(root)
+    in_ids = {id(n) for n in in_nodes}
+    in_vals = {id(v) for n in in_nodes for k, v in vars(n).items() if isinstance(v, list) and not _LINK.match(k)}
+    before = _snapshot(root, binary)
+    call = case["call"]
+    res, passed, obs = _try(case, start, binary)
+    inv = {}
+    # the input tree (structure, names, attributes incl. '_'-attributes, every node's _sep, root.sep) and
+    # the path argument are unchanged
+    inv["source_same"] = _snapshot(root, binary) == before
+    if call["fn"] == "prune" and isinstance(call["paths"], list):
+        inv["arg_same"] = list(passed) == call["paths"] if passed is not None else True
+    # a second identical call gives the same answer
+    res2, _, obs2 = _try(case, start, binary)
+    inv["repeatable"] = obs2 == obs and _snapshot(root, binary) == before
+    if res is not None:
+        out_nodes = _nodes(res)
+        # new objects, of the class of the input's nodes, with consistent parent/children links
+        inv["class_same"] = all(type(n) is type(root) for n in out_nodes)
+        inv["links"] = all(c is None or c.parent is n for n in out_nodes for c in n.children)
+        inv["fresh_nodes"] = not any(id(n) in in_ids for n in out_nodes) and (res2 is None or res2 is not res)
+        inv["fresh_values"] = not any(id(v) in in_vals for n in out_nodes for k, v in vars(n).items()
+                                      if isinstance(v, list) and not _LINK.match(k))
+    if call["fn"] == "subtree" and "\n" not in "".join(n.name for n in in_nodes):
         obs["print"] = _printed(start, call["path"], call["max_depth"])
+        if all(re.fullmatch(r"[A-Za-z0-9]+", n.name) for n in in_nodes):
+            h = _hprinted_names(start, call["path"], call["max_depth"])
+            p = obs["print"]
+            if "err" in p or "err" in h:
+                inv["hprint"] = p.get("err") == h.get("err")
+            else:
+                inv["hprint"] = sorted(nm for _, nm in p["lines"]) == h["names"]
+    if res is not None:
+        # the result does not depend on the input any more: change the input afterwards
+        for n in in_nodes:
+            for k, v in vars(n).items():
+                if isinstance(v, list) and not _LINK.match(k):
+                    v.append("changed")
+            n.zz_changed = 1
+        inv["independent"] = _observe(res, binary) == obs["tree"]
+    obs["inv"] = inv
     return obs
 
 
@@ -161,6 +285,8 @@ def run_impl(prop, case):
 
 
 def _cval(v):
+    if isinstance(v, list):
+        v = _canon(v)
     if v is None:
         return "VNone"
     if isinstance(v, bool):
@@ -176,13 +302,15 @@ def _cattrs(items):
     return clist(cpair(cstr(k), _cval(v)) for k, v in items)
 
 
-def _ctree(d, counter):
+def _ctree(d, counter, sep, is_root):
     if d is None:
         return "HOLE"
     i = counter[0]
     counter[0] += 1
-    kids = [_ctree(k, counter) for k in d["k"]]
-    return f"T (Some {i}) {cstr(d['n'])} {_cattrs(sorted(d['a'].items()))} {clist(kids)}"
+    kids = [_ctree(k, counter, sep, False) for k in d["k"]]
+    own = sep if is_root else (d.get("s") if d.get("s") is not None else "/")
+    items = sorted(list(d["a"].items()) + [("_sep", own)])
+    return f"T (Some {i}) {cstr(d['n'])} {_cattrs(items)} {clist(kids)}"
 
 
 def _ccall(call):
@@ -211,8 +339,11 @@ def emit(prop, case, obs):
         p = f"(Some (OErr {int(pr['err'])}))"
     else:
         p = "(Some (OTree " + _clbls([(d, n, []) for d, n in pr["lines"]]) + "))"
-    return (f"HC {cbool(case.get('binary'))} ({cstr(case['sep'])}) ({_ctree(case['tree'], [0])}) "
-            f"{clist(str(int(i)) for i in case.get('start', []))} ({_ccall(case['call'])}) ({o}) {top} {p}")
+    inv = all(bool(v) for v in obs.get("inv", {}).values())
+    return (f"HC {cbool(case.get('binary'))} ({cstr(case['sep'])}) "
+            f"({_ctree(case['tree'], [0], case['sep'], True)}) "
+            f"{clist(str(int(i)) for i in case.get('start', []))} ({_ccall(case['call'])}) ({o}) {top} {p} "
+            f"{cbool(inv)}")
 
 
 # ---------------------------------------------------------------------------------------------
@@ -302,6 +433,14 @@ def _rand_attrs(rng, nd):
         nd["a"][rng.choice(ATTR_KEYS)] = rng.choice([0, 1, 7, -3, "v", "", True, False, None])
         if r < 0.08:
             nd["a"]["y"] = rng.randint(0, 99)
+    r = rng.random()
+    if r < 0.08:
+        nd["a"]["_hid"] = rng.choice([1, "p", None])          # a private ('_') user attribute
+    elif r < 0.16:
+        nd["a"]["tags"] = [rng.randint(0, 9)] * rng.randint(0, 2)   # a mutable attribute value
+    r = rng.random()
+    if r < 0.3:
+        nd["s"] = rng.choice(SEPS)                           # the node's own _sep (only the root's counts)
 
 
 def gen_tree(rng, shape, pool_name, n, bad_chars):
@@ -486,7 +625,14 @@ def gen_case(rng, tier):
         md = 0 if rng.random() < 0.4 else rng.randint(1, h + 1)
         call = {"fn": "subtree", "path": path, "max_depth": md}
         label = f"{mode}/subtree/{shape}/{pool_name}"
-    return label, {"sep": tsep, "tree": tree, "start": start, "binary": binary, "call": call, "stratum": label}
+    if rng.random() < 0.3:
+        call["omit"] = True                 # leave out every argument that equals its default
+    if call["fn"] == "prune" and isinstance(call["paths"], list) and rng.random() < 0.25:
+        call["ptype"] = "tuple"
+    case = {"sep": tsep, "tree": tree, "start": start, "binary": binary, "call": call, "stratum": label}
+    if rng.random() < 0.2:
+        case["cls"] = "sub"                 # a user subclass of Node / BinaryNode
+    return label, case
 
 
 def generate(prop, rng, tier):
@@ -725,7 +871,10 @@ def rule(prop):
             "BinaryNode tree with empty slots on root (17%) or inner node (8%); x prune_tree(0-3 non-nested targets "
             "below the start node written as full/partial/bare-name paths, leading/trailing separator, missing paths "
             "incl. nodes outside the start node's subtree, empty paths, str or list argument, exact on/off, max_depth "
-            "0..height+1) or get_subtree(path, max_depth) + the same arguments through print_tree; thorough adds all "
+            "0..height+1) or get_subtree(path, max_depth) + the same arguments through print_tree and hyield_tree; "
+            "paths as str/list/tuple; 30% of the calls leave out arguments equal to their default; 20% use a user "
+            "subclass of Node/BinaryNode; nodes carry private '_' attributes, list-valued attributes and their own "
+            "_sep; every call is made twice and followed by a change of the input; thorough adds all "
             "ordered trees <= 5 nodes x every start node x all single/non-nested-pair targets x exact x depth; "
             "non-trivial = a returned tree with more than one and fewer than all nodes of the start node's subtree, or "
             "an exception on a call with >= 2 paths; distinct by canonical JSON hash")
@@ -734,6 +883,13 @@ def rule(prop):
 def explain(prop, case, obs, flags):
     from ._base import explain as base
     if isinstance(obs, dict) and "_harness_error" not in obs and flags & 2:
+        failed = sorted(k for k, v in obs.get("inv", {}).items() if not v)
+        if failed:
+            return ("prop_C14 side condition(s) false on the live objects: " + ", ".join(failed) + " (source_same/"
+                    "arg_same: input tree, separators, path argument unchanged; class_same/links/fresh_nodes/"
+                    "fresh_values/independent: the result is a self-contained copy of the input's node class; "
+                    "repeatable: a second identical call gives the same answer; hprint: hyield_tree shows the "
+                    "same nodes as print_tree)")
         return ("prop_C14 is false on the implementation's output: the returned pre-order (depth, name, attrs) "
                 "list is not `filter keep` of the start node's subtree (or not the addressed subtree / not a new "
                 "root / an emptied BinaryNode slot moved / print_tree shows something else), or a path that "
@@ -769,6 +925,18 @@ def partial_clauses(prop):
         "left by `del children`) and the link between `addressed_at true` and the model's search are covered by "
         "the correspondence run only",
         "max_depth is a natural number (negative ints behave as 'no limit' in the code and are not generated)",
+        "accepted blind spots of the correspondence: (a) ~0.4% of the cases (nested targets) are skipped; empty "
+        "separators (Unmodelled) are never generated; (b) for a missing path the predicate accepts any exception "
+        "class and for an ambiguous path it accepts anything (the model comparison is exact on the class in both); "
+        "(c) prune_tree on an inner node: the returned node's depth attribute and everything above it are recorded, "
+        "not compared; (d) argument types never generated: generators/sets of paths (the code needs len()), "
+        "non-bool exact, None/negative max_depth, non-str names, names containing a newline on the print path; "
+        "(e) hyield_tree is compared with print_tree as a multiset of names and only for alphanumeric names, "
+        "print_tree only in ansi style; hprint_tree/yield_tree are reached through these two; (f) attribute "
+        "values are compared after canonicalisation (lists as their JSON text, attributes sorted by key: dict "
+        "order of vars() is not observed); (g) the separator of the result is observed as each node's own _sep "
+        "(copied as is) - get_subtree's result takes the separator of the addressed node, not of the tree; (h) the "
+        "functions are called twice on the same input but never on their own result; no hooks/threads",
     ]
 
 
